@@ -51,6 +51,8 @@ RECURSIVE NextAfter(_, _, _)
 NextAfter(idx, j, nx) == IF j > Len(idx) THEN nx ELSE NextAfter(idx, j + 1, IF idx[j] >= 0 THEN idx[j] + 1 ELSE nx)
 GapAfter(idx, gap) == IF Len(idx) = 0 THEN gap ELSE IF idx[Len(idx)] < 0 THEN TRUE ELSE FALSE
 
+Slept(e) == IF "us" \in DOMAIN e THEN e.us >= 200 ELSE "ms" \in DOMAIN e /\ e.ms >= 1
+
 Check(m, e) ==
   CASE e.a = "play" -> IF ~e.ok /\ m.failAt # 1 THEN "harness_unexpected_play_error" ELSE ""
     [] e.a = "dec" ->
@@ -58,7 +60,9 @@ Check(m, e) ==
          ELSE IF e.site = "top" /\ m.cause # "none" /\ m.steps + 1 > m.K THEN "ends_in_bounded_steps"
          \* (back at the top of its loop with nothing pushed since, twice in a row, and - where the wall clock was recorded -
          \*  in under a millisecond: it did not sleep in between)
-         ELSE IF e.site = "top" /\ e.prod = m.lastProd /\ m.idle >= 1 /\ ("ms" \notin DOMAIN e \/ e.ms < 1) THEN "never_busy_spins"
+         \* (where microseconds were recorded: a pass that took 200 us or more has slept - a pass that does not sleep takes the
+         \*  few microseconds of its code plus the hand-over to the driver; how long an idle thread sleeps is not the statement's business)
+         ELSE IF e.site = "top" /\ e.prod = m.lastProd /\ m.idle >= 1 /\ ~Slept(e) THEN "never_busy_spins"
          \* "within bounded time": a thread with nothing to do sleeps for a millisecond, not for ever longer - it must be back
          \* at the top of its loop well within a second of being let go (the margin is for a loaded machine)
          ELSE IF "ms" \in DOMAIN e /\ e.ms > 700 THEN "idle_thread_wakes_up_in_bounded_time"
